@@ -15,6 +15,7 @@ Inductive con :=
   (* inputs of a run *)
   | IPredG (k : nat) | IPredS (k : nat) | IY (k : nat) | IR | IOutG | IOutS | IRng
   | IPy0 | IPm0 | IEmpty | IGarbageR
+  | IOutGk (k : nat) | IOutSk (k : nat) | ILikJunk
   (* measurement model *)
   | FH | FInn | FCustomLik
   (* KF *)
@@ -71,68 +72,104 @@ Record obs := mkObs { o_g : tm; o_s : tm; o_log : list site; o_lik : bool * tm; 
 Definition opt_pair (o : option tm) : bool * tm :=
   match o with Some l => (true, l) | None => (false, leaf IEmpty) end.
 
-(* run configuration: skip_ of the driven correction, skip_ of the correction wrapped by
-   GPF, whether a failing getNoiseCovarianceMatrix returns an empty matrix next to its false
-   flag, whether one object is passed as predicted and corrected belief *)
+(* run configuration, constant over a run: skip_ of the driven correction, skip_ of the correction
+   wrapped by GPF, whether a failing getNoiseCovarianceMatrix returns an empty matrix next to its
+   false flag, whether one object is passed as predicted and corrected belief *)
 Record cfg := mkCfg { c_skip : bool; c_iskip : bool; c_emptyR : bool; c_alias : bool }.
 Definition cfg0 := mkCfg false false false false.
 
-Definition sinj (c : cfg) (p : pattern) (k : nat) : mmodel tm tm tm tm tm :=
-  if c_emptyR c then inject_g (leaf IGarbageR) p (smm k) else inject p (smm k).
+(* configuration of ONE step of a run (histories: the skip flags in force after the commands issued
+   so far, the payload classes of this step's failing calls, the sizes of this step's belief and
+   measurement):
+     sc_skip / sc_iskip   skip_ of the driven / wrapped correction during this step
+     sc_garbR             a failing getNoiseCovarianceMatrix hands back a matrix that is not the noise
+                          covariance (empty, another shape) next to its false flag
+     sc_fresh             the output object of this step is a new object (not the one the previous step wrote)
+     sc_sub_ok, sc_ncalls, sc_lcalls   SUKF: size test, number of getNoiseCovarianceMatrix calls (they
+                          depend on this step's measurement size and component count)
+     sc_lpay              what a failing user likelihood model returns next to its false flag:
+                          0 = Zero(1), 1 = an empty vector, otherwise some other vector *)
+Record scfg := mkSCfg { sc_skip : bool; sc_iskip : bool; sc_garbR : bool; sc_fresh : bool;
+                        sc_sub_ok : bool; sc_ncalls : nat; sc_lcalls : nat; sc_lpay : nat }.
+Definition scfg_of (c : cfg) (sub_ok : bool) (ncalls lcalls : nat) : scfg :=
+  mkSCfg (c_skip c) (c_iskip c) (c_emptyR c) false sub_ok ncalls lcalls 0.
+Definition const_steps (sc : scfg) (pats : list (list bool)) : list (scfg * list bool) := map (fun b => (sc, b)) pats.
 
-(* a Gaussian correction object driven through a sequence of patterns; the
-   output object of step k is the in-out argument of step k+1 (aliased: the
-   predicted object itself) *)
+Definition ssinj (sc : scfg) (p : pattern) (k : nat) : mmodel tm tm tm tm tm :=
+  if sc_garbR sc then inject_g (leaf IGarbageR) p (smm k) else inject p (smm k).
+Definition sinj (c : cfg) (p : pattern) (k : nat) : mmodel tm tm tm tm tm := ssinj (scfg_of c true 0 0) p k.
+
+Definition lik_pay (n : nat) : tm :=
+  match n with 0 => leaf FZero1 | 1 => leaf IEmpty | _ => leaf ILikJunk end.
+
+(* a Gaussian correction object driven through a sequence of steps; the output object of step k is the
+   in-out argument of step k+1 unless that step brings a new one (aliased: the predicted object itself) *)
 Section GaussRun.
 Variable GS : Type.
-Variable step : pattern -> nat -> tm -> tm -> GS -> result tm GS.
-Variable getlik : pattern -> nat -> GS -> option tm * list site.
+Variable step : scfg -> pattern -> nat -> tm -> tm -> GS -> result tm GS.
+Variable getlik : scfg -> pattern -> nat -> GS -> option tm * list site.
 
-Fixpoint gauss_run_cfg (c : cfg) (pats : list (list bool)) (k : nat) (out : tm) (st : GS) : list obs :=
-  match pats with
+Fixpoint gauss_run_steps (alias : bool) (steps : list (scfg * list bool)) (k : nat) (out : tm) (st : GS) : list obs :=
+  match steps with
   | [] => []
-  | b :: rest =>
+  | (sc, b) :: rest =>
     let p := pat_of b in
     let pred := leaf (IPredG k) in
-    let r := correct_wrapper (c_skip c) (step p k) pred (if c_alias c then pred else out) st in
-    let '(lk, ll) := getlik p k (r_st r) in
-    mkObs (r_out r) (leaf IEmpty) (r_log r) (opt_pair lk) ll :: gauss_run_cfg c rest (S k) (r_out r) (r_st r)
+    let out' := if sc_fresh sc then leaf (IOutGk k) else out in
+    let r := correct_wrapper (sc_skip sc) (step sc p k) pred (if alias then pred else out') st in
+    let '(lk, ll) := getlik sc p k (r_st r) in
+    mkObs (r_out r) (leaf IEmpty) (r_log r) (opt_pair lk) ll :: gauss_run_steps alias rest (S k) (r_out r) (r_st r)
   end.
-Definition gauss_run := gauss_run_cfg cfg0.
 End GaussRun.
+
+(* the same with one configuration for the whole run *)
+Definition gauss_run_cfg (GS : Type) (step : pattern -> nat -> tm -> tm -> GS -> result tm GS)
+           (getlik : pattern -> nat -> GS -> option tm * list site)
+           (c : cfg) (pats : list (list bool)) (k : nat) (out : tm) (st : GS) : list obs :=
+  gauss_run_steps GS (fun _ => step) (fun _ => getlik) (c_alias c) (const_steps (scfg_of c true 0 0) pats) k out st.
+Definition gauss_run (GS : Type) step getlik := gauss_run_cfg GS step getlik cfg0.
 
 Definition kf_st0 : kf_state tm tm := mkKfSt None (leaf IPy0).
 Definition ukf_st0 : ukf_state tm tm := mkUkfSt None (leaf IPm0).
 Definition sukf_st0 : sukf_state tm tm := mkSukfSt None None.
 
+Definition run_kf_steps (alias : bool) (steps : list (scfg * list bool)) : list obs :=
+  gauss_run_steps _ (fun sc p k => s_kf_step (ssinj sc p k)) (fun _ _ _ st => (s_kf_get_lik st, []))
+                  alias steps 0 (leaf IOutG) kf_st0.
 Definition run_kf_cfg (c : cfg) (pats : list (list bool)) : list obs :=
-  gauss_run_cfg _ (fun p k => s_kf_step (sinj c p k)) (fun _ _ st => (s_kf_get_lik st, [])) c pats 0 (leaf IOutG) kf_st0.
+  run_kf_steps (c_alias c) (const_steps (scfg_of c true 0 0) pats).
 Definition run_kf := run_kf_cfg cfg0.
 
+Definition run_ukf_steps (additive alias : bool) (steps : list (scfg * list bool)) : list obs :=
+  gauss_run_steps _ (fun sc p k => s_ukf_step additive (ssinj sc p k)) (fun _ _ _ st => (s_ukf_get_lik st, []))
+                  alias steps 0 (leaf IOutG) ukf_st0.
 Definition run_ukf_cfg (c : cfg) (additive : bool) (pats : list (list bool)) : list obs :=
-  gauss_run_cfg _ (fun p k => s_ukf_step additive (sinj c p k)) (fun _ _ st => (s_ukf_get_lik st, []))
-            c pats 0 (leaf IOutG) ukf_st0.
+  run_ukf_steps additive (c_alias c) (const_steps (scfg_of c true 0 0) pats).
 Definition run_ukf := run_ukf_cfg cfg0.
 
+Definition run_sukf_steps (alias : bool) (steps : list (scfg * list bool)) : list obs :=
+  gauss_run_steps _ (fun sc p k => s_sukf_step (sc_sub_ok sc) (sc_ncalls sc) (ssinj sc p k))
+                  (fun sc p k st => s_sukf_get_lik (sc_lcalls sc) (ssinj sc p k) st) alias steps 0 (leaf IOutG) sukf_st0.
 Definition run_sukf_cfg (c : cfg) (sub_ok : bool) (ncalls lcalls : nat) (pats : list (list bool)) : list obs :=
-  gauss_run_cfg _ (fun p k => s_sukf_step sub_ok ncalls (sinj c p k))
-            (fun p k st => s_sukf_get_lik lcalls (sinj c p k) st) c pats 0 (leaf IOutG) sukf_st0.
+  run_sukf_steps (c_alias c) (const_steps (scfg_of c sub_ok ncalls lcalls) pats).
 Definition run_sukf := run_sukf_cfg cfg0.
 
 (* GaussianLikelihood::likelihood on its own *)
-Definition run_gl_cfg (c : cfg) (pats : list (list bool)) : list obs :=
-  let fix go pats k :=
-    match pats with
+Definition run_gl_steps (steps : list (scfg * list bool)) : list obs :=
+  let fix go steps k :=
+    match steps with
     | [] => []
-    | b :: rest =>
-      let '(o, l) := s_gl (sinj c (pat_of b) k) (leaf (IPredS k)) in
+    | (sc, b) :: rest =>
+      let '(o, l) := s_gl (ssinj sc (pat_of b) k) (leaf (IPredS k)) in
       mkObs (leaf IEmpty) (leaf IEmpty) l (lik_pair (leaf FZero1) o) [] :: go rest (S k)
-    end in go pats 0.
+    end in go steps 0.
+Definition run_gl_cfg (c : cfg) (pats : list (list bool)) : list obs := run_gl_steps (const_steps (scfg_of c true 0 0) pats).
 Definition run_gl := run_gl_cfg cfg0.
 
 Definition s_lm (custom : bool) (k : nat) : likmodel tm tm :=
   if custom then LCustom (fun s => (true, ap2 FCustomLik s (leaf (IY k)))) else LGauss.
-Definition s_inject_lik := @inject_lik tm tm (leaf FZero1).
+Definition s_inject_lik_z (z : tm) := @inject_lik tm tm z.
+Definition s_inject_lik := s_inject_lik_z (leaf FZero1).
 
 (* GPFCorrection makes its calls in two phases: the wrapped Gaussian correction,
    then the likelihood.  A 6-bit pattern applies to both; with 12 bits the second
@@ -142,47 +179,52 @@ Definition pat2_of (bits : list bool) : pattern := fun s => nth (6 + nat_of_site
 
 Section PfRun.
 Variable GS : Type.
-Variable step : list bool -> nat -> tm * tm -> tm * tm -> GS -> result (tm * tm) GS.
+Variable step : scfg -> list bool -> nat -> tm * tm -> tm * tm -> GS -> result (tm * tm) GS.
 Variable getlik : GS -> bool * tm.
 
-Fixpoint pf_run_cfg (c : cfg) (pats : list (list bool)) (k : nat) (out : tm * tm) (st : GS) : list obs :=
-  match pats with
+Fixpoint pf_run_steps (alias : bool) (steps : list (scfg * list bool)) (k : nat) (out : tm * tm) (st : GS) : list obs :=
+  match steps with
   | [] => []
-  | b :: rest =>
+  | (sc, b) :: rest =>
     let pred := (leaf (IPredG k), leaf (IPredS k)) in
-    let r := correct_wrapper (c_skip c) (step b k) pred (if c_alias c then pred else out) st in
-    mkObs (fst (r_out r)) (snd (r_out r)) (r_log r) (getlik (r_st r)) [] :: pf_run_cfg c rest (S k) (r_out r) (r_st r)
+    let out' := if sc_fresh sc then (leaf (IOutGk k), leaf (IOutSk k)) else out in
+    let r := correct_wrapper (sc_skip sc) (step sc b k) pred (if alias then pred else out') st in
+    mkObs (fst (r_out r)) (snd (r_out r)) (r_log r) (getlik (r_st r)) [] :: pf_run_steps alias rest (S k) (r_out r) (r_st r)
   end.
 End PfRun.
 
 Definition pf_st0 : pf_state tm := mkPfSt false (leaf IEmpty).
 
+Definition run_boot_steps (custom alias : bool) (steps : list (scfg * list bool)) : list obs :=
+  pf_run_steps _ (fun sc b k => s_boot_step (s_inject_lik_z (lik_pay (sc_lpay sc)) (pat_of b) (s_lm custom k)) (ssinj sc (pat_of b) k))
+               pf_get_lik alias steps 0 (leaf IOutG, leaf IOutS) pf_st0.
 Definition run_boot_cfg (c : cfg) (custom : bool) (pats : list (list bool)) : list obs :=
-  pf_run_cfg _ (fun b k => s_boot_step (s_inject_lik (pat_of b) (s_lm custom k)) (sinj c (pat_of b) k)) pf_get_lik
-         c pats 0 (leaf IOutG, leaf IOutS) pf_st0.
+  run_boot_steps custom (c_alias c) (const_steps (scfg_of c true 0 0) pats).
 Definition run_boot := run_boot_cfg cfg0.
 
 Definition s_gpf_step_aliased (GS : Type) :=
   @gpf_step_aliased tm tm tm tm tm tm tm tm tm (ap1 FStPx) (ap2 FGlDens) (leaf FZero1) GS s_sample s_gpf_wupd.
 
-Definition run_gpf_with (GS : Type) (gc : pattern -> nat -> tm -> tm -> GS -> result tm GS) (gs0 : GS)
-           (c : cfg) (custom : bool) (pats : list (list bool)) : list obs :=
-  pf_run_cfg _ (fun b k pred out st =>
-                  let gcw := correct_wrapper (c_iskip c) (gc (pat_of b) k) in
-                  let lm := s_inject_lik (pat2_of b) (s_lm custom k) in
-                  let mm := sinj c (pat2_of b) k in
-                  if c_alias c then s_gpf_step_aliased GS gcw lm mm pred st
-                  else s_gpf_step GS gcw lm mm pred out st)
-         (fun st => pf_get_lik (g_pf st)) c pats 0 (leaf IOutG, leaf IOutS) (mkGpfSt pf_st0 gs0 (leaf IRng)).
+Definition run_gpf_with (GS : Type) (gc : scfg -> pattern -> nat -> tm -> tm -> GS -> result tm GS) (gs0 : GS)
+           (custom alias : bool) (steps : list (scfg * list bool)) : list obs :=
+  pf_run_steps _ (fun sc b k pred out st =>
+                    let gcw := correct_wrapper (sc_iskip sc) (gc sc (pat_of b) k) in
+                    let lm := s_inject_lik_z (lik_pay (sc_lpay sc)) (pat2_of b) (s_lm custom k) in
+                    let mm := ssinj sc (pat2_of b) k in
+                    if alias then s_gpf_step_aliased GS gcw lm mm pred st
+                    else s_gpf_step GS gcw lm mm pred out st)
+               (fun st => pf_get_lik (g_pf st)) alias steps 0 (leaf IOutG, leaf IOutS) (mkGpfSt pf_st0 gs0 (leaf IRng)).
 
 (* inner: 0 = KF, 1 = UKF generic, 2 = UKF additive, 3 = SUKF *)
-Definition run_gpf_cfg (c : cfg) (inner : nat) (sub_ok : bool) (ncalls : nat) (custom : bool) (pats : list (list bool)) : list obs :=
+Definition run_gpf_steps (inner : nat) (custom alias : bool) (steps : list (scfg * list bool)) : list obs :=
   match inner with
-  | 0 => run_gpf_with _ (fun p k => s_kf_step (sinj c p k)) kf_st0 c custom pats
-  | 1 => run_gpf_with _ (fun p k => s_ukf_step false (sinj c p k)) ukf_st0 c custom pats
-  | 2 => run_gpf_with _ (fun p k => s_ukf_step true (sinj c p k)) ukf_st0 c custom pats
-  | _ => run_gpf_with _ (fun p k => s_sukf_step sub_ok ncalls (sinj c p k)) sukf_st0 c custom pats
+  | 0 => run_gpf_with _ (fun sc p k => s_kf_step (ssinj sc p k)) kf_st0 custom alias steps
+  | 1 => run_gpf_with _ (fun sc p k => s_ukf_step false (ssinj sc p k)) ukf_st0 custom alias steps
+  | 2 => run_gpf_with _ (fun sc p k => s_ukf_step true (ssinj sc p k)) ukf_st0 custom alias steps
+  | _ => run_gpf_with _ (fun sc p k => s_sukf_step (sc_sub_ok sc) (sc_ncalls sc) (ssinj sc p k)) sukf_st0 custom alias steps
   end.
+Definition run_gpf_cfg (c : cfg) (inner : nat) (sub_ok : bool) (ncalls : nat) (custom : bool) (pats : list (list bool)) : list obs :=
+  run_gpf_steps inner custom (c_alias c) (const_steps (scfg_of c sub_ok ncalls 0) pats).
 Definition run_gpf (inner : nat) (custom : bool) := run_gpf_cfg cfg0 inner true 0 custom.
 
 (* SIS::filtering_step, one call (step 0, no resampling): kept for the examples *)
@@ -197,32 +239,42 @@ Definition run_sis (bits : list bool) (step : nat) : (tm * tm) * (tm * tm) * lis
   s_sis_step (mm_freeze (inject (pat_of bits) (smm 0))) step ((leaf (IPredG 0), leaf (IPredS 0)), (leaf IOutG, leaf IOutS)).
 
 (* SIS driven through several filtering steps with a BootstrapCorrection over the
-   GaussianLikelihood as correction: per step the pattern and whether the
-   resampling test fires (an input: it depends on the numerical weights).
+   GaussianLikelihood as correction.  Per step: the pattern; whether the resampling test fires (an
+   input: it depends on the numerical weights); whether skip_ of the correction is in force
+   (ParticleFilter::skip("correction", .) issued before the step); whether reset() is called during
+   the step (the filtering thread then leaves its loop, runs the initialization again and restarts at
+   step number 0: pred_particle_ is the initial set, cor_particle_ keeps what this step left).
    Events: the filter's own (predict, freeze, correct, normalise, resample) with the
-   measurement-model calls of the correction after EvCorrect. *)
+   measurement-model calls of the correction after EvCorrect; a skipped correction runs no correctStep. *)
 Record sis_obs := mkSisObs { so_pred : tm * tm; so_cor_at_log : tm * tm; so_cor : tm * tm;
                              so_events : list (sis_event + site) }.
+Record sis_in := mkSisIn { si_bits : list bool; si_deg : bool; si_skip : bool; si_reset : bool }.
 
-Fixpoint sis_run (steps : list (list bool * bool)) (k : nat) (pc : (tm * tm) * (tm * tm)) : list sis_obs :=
+Definition sis_init : tm * tm := (leaf (IPredG 0), leaf (IPredS 0)).
+
+Fixpoint sis_run (steps : list sis_in) (k stepno : nat) (pc : (tm * tm) * (tm * tm)) : list sis_obs :=
   match steps with
   | [] => []
-  | (b, deg) :: rest =>
-    let p := pat_of b in
+  | i :: rest =>
+    let p := pat_of (si_bits i) in
     let mm := inject p (smm k) in
-    let correct := fun pred cor => r_out (s_boot_step LGauss mm pred cor pf_st0) in
+    let cstep := correct_wrapper (si_skip i) (s_boot_step LGauss mm) in
+    let correct := fun pred cor => r_out (cstep pred cor pf_st0) in
+    let deg := si_deg i in
     let '(pred, cor, evs) :=
       @sis_step tm tm (pr2 FSisPredG FSisPredS) correct (pr1 FSisNormG FSisNormS) (fun _ => deg)
-                (pr1 FSisResG FSisResS) (mm_freeze mm) k pc in
-    let at_log := @sis_cor_at_log tm tm (pr2 FSisPredG FSisPredS) correct (pr1 FSisNormG FSisNormS) (mm_freeze mm) k pc in
-    let clog := r_log (s_boot_step LGauss mm pred (snd pc) pf_st0) in
+                (pr1 FSisResG FSisResS) (mm_freeze mm) stepno pc in
+    let at_log := @sis_cor_at_log tm tm (pr2 FSisPredG FSisPredS) correct (pr1 FSisNormG FSisNormS) (mm_freeze mm) stepno pc in
+    let clog := r_log (cstep pred (snd pc) pf_st0) in
     let evs' := flat_map (fun e => match e with
-                                   | EvCorrect => inl EvCorrect :: map inr clog
+                                   | EvCorrect => if si_skip i then [] else inl EvCorrect :: map inr clog
                                    | _ => [inl e] end) evs in
-    mkSisObs pred at_log cor evs' :: sis_run rest (S k) (pred, cor)
+    mkSisObs pred at_log cor evs' ::
+      (if si_reset i then sis_run rest (S k) 0 (sis_init, cor) else sis_run rest (S k) (S stepno) (pred, cor))
   end.
+Definition run_sis_steps (steps : list sis_in) : list sis_obs := sis_run steps 0 0 (sis_init, (leaf IOutG, leaf IOutS)).
 Definition run_sis_seq (steps : list (list bool * bool)) : list sis_obs :=
-  sis_run steps 0 ((leaf (IPredG 0), leaf (IPredS 0)), (leaf IOutG, leaf IOutS)).
+  run_sis_steps (map (fun s => mkSisIn (fst s) (snd s) false false) steps).
 
 (* term equality, for the examples *)
 Definition con_code (c : con) : nat * nat :=
@@ -239,6 +291,7 @@ Definition con_code (c : con) : nat * nat :=
   | FSisPredG => (38, 0) | FSisPredS => (39, 0) | FSisCorG => (40, 0) | FSisCorS => (41, 0)
   | FSisNormG => (42, 0) | FSisNormS => (43, 0) | FSisResG => (44, 0) | FSisResS => (45, 0)
   | IGarbageR => (46, 0)
+  | IOutGk k => (47, k) | IOutSk k => (48, k) | ILikJunk => (49, 0)
   end.
 Definition con_eqb (a b : con) : bool :=
   Nat.eqb (fst (con_code a)) (fst (con_code b)) && Nat.eqb (snd (con_code a)) (snd (con_code b)).
